@@ -180,6 +180,15 @@ func pickRecipe(r *gen.R, sc *stdCfg) recipe {
 	if r.Chance(1, 10) {
 		pw = ""
 	}
+	if r.Chance(1, 6) {
+		// the (valid) password of ANOTHER user
+		for _, u := range sc.Cfg.Users {
+			if ui := sc.Users[u.Name]; ui != nil && ui.Password != "" && u.Name != user && r.Bool() {
+				pw = ui.Password
+				break
+			}
+		}
+	}
 	switch r.Intn(18) {
 	case 16:
 		rc := asciiLogin(string(r.Printable(r.Pick(65400, 65500, 65531))), false, "pw", 0)
